@@ -137,7 +137,7 @@ impl Property for C04 {
     fn cases(&self, tier: Tier) -> usize {
         match tier {
             Tier::Quick => 100_000,
-            Tier::Thorough => 400_000,
+            Tier::Thorough => 4_000_000,
         }
     }
     fn strategy(&self, _tier: Tier) -> BoxedStrategy<C04Case> {
